@@ -18,6 +18,7 @@ inductive Ev
   | setEnc (e : Opt) (ok : Bool)
   | setComp (c : Opt) (ok : Bool)
   | close
+  | confirmed (comp enc : Opt)   -- ghost: the server's reply to the selection was a confirmation
   deriving Repr
 
 structure Cfg where
@@ -170,6 +171,7 @@ def applyComp (s : St) (x : Opt) : Bool × St :=
 applied to the transport -/
 def applyConfirmed (s : St) (conf : Ses) : Bool × St :=
   if conf.state = .negotiating then
+    let s := s.log (.confirmed conf.comp conf.enc)
     let a := applyComp s conf.comp
     if !a.1 then (false, a.2) else applyEnc a.2 conf.enc
   else (true, s)
